@@ -11,4 +11,4 @@ Separate Extraction
   UmlSrc.template_files UmlSrc.template_files_cs
   Uml.once_hyp Uml.visited UmlCs.ops_of_cs UmlCs.members_cs UmlCs.all_cs UmlCs.cs_line UmlCs.cs_has_body UmlCs.files_all UmlCs.cs_view UmlCs.cs_cls
   UmlSpec.files_hyp_cs UmlSpec.expected_files_cs
-  UmlIncl.nfd UmlIncl.fd UmlIncl.header_includes UmlIncl.source_includes UmlIncl.forward_decls UmlIncl.namespace_deps UmlIncl.requires_vector.
+  UmlIncl.nfd UmlIncl.fd UmlIncl.header_includes UmlIncl.source_includes UmlIncl.forward_decls UmlIncl.namespace_deps UmlIncl.requires_vector UmlIncl.adaptor_incl UmlIncl.incl_names_ok.
